@@ -89,6 +89,12 @@ types = [
     record("A2", [field("y", prim("int32"))], ns="fam.cyc.p"),
     record("C", [field("b", ref("B", "fam.cyc.q"), optional=True)], ns="fam.cyc.p"),
     record("B", [field("a2", ref("A2", "fam.cyc.p"), optional=True)], ns="fam.cyc.q"),
+    # a package cycle that is not a type cycle, whose middle type sorts BEFORE the type that enters it:
+    # r.Order -> m.Customer -> r.Address (a cycle search that remembers "this type closes no cycle" across
+    # starting points misses it and the generated packages import each other)
+    record("Order", [field("customer", ref("Customer", "fam.cyc.m"), optional=True), field("total", prim("int32"))], ns="fam.cyc.r"),
+    record("Customer", [field("address", ref("Address", "fam.cyc.r"), optional=True), field("name", prim("string"))], ns="fam.cyc.m"),
+    record("Address", [field("street", prim("string"))], ns="fam.cyc.r"),
     record("Holder", [field("a", ref("Node", "fam.alpha.model"), optional=True), field("b", ref("Node", "fam.beta.model"), optional=True), field("tag", prim("string"))]),
 ]
 
